@@ -25,73 +25,91 @@ var vrtModels map[string]modelFn
 
 func init() {
 	models = map[string]modelFn{
-		"strings.Split":                   mStringsSplit,
-		"strings.Replace":                 mStringsReplace,
-		"strings.ReplaceAll":              func(ex *Exec, a []Val) Val { return mStringsReplace(ex, []Val{a[0], a[1], a[2], cint(-1, 64, true)}) },
-		"strings.Contains":                mStringsContains,
-		"strings.Index":                   func(ex *Exec, a []Val) Val { return goInt(ex.indexOf(a[0].(Str), a[1].(Str), 0)) },
-		"strings.IndexByte":               func(ex *Exec, a []Val) Val { return goInt(ex.indexOf(a[0].(Str), Str{B: []Int{a[1].(Int)}}, 0)) },
-		"strings.HasPrefix":               mStringsHasPrefix,
-		"strings.HasSuffix":               mStringsHasSuffix,
-		"strings.TrimSpace":               mStringsTrimSpace,
-		"strings.TrimRight":               mStringsTrimRight,
-		"strings.Join":                    mStringsJoin,
-		"(*strings.Builder).Write":        mBufWriteBytes,
-		"(*strings.Builder).WriteString":  mBufWriteString,
-		"(*strings.Builder).WriteByte":    mBufWriteByte,
-		"(*strings.Builder).WriteRune":    mBufWriteRune,
-		"(*strings.Builder).String":       mBufString,
-		"(*strings.Builder).Len":          mBufLen,
-		"(*strings.Builder).Reset":        mBufReset,
-		"(*strings.Builder).Grow":         func(ex *Exec, a []Val) Val { return nil },
-		"(*bytes.Buffer).Write":           mBufWriteBytes,
-		"(*bytes.Buffer).WriteString":     mBufWriteString,
-		"(*bytes.Buffer).WriteByte":       mBufWriteByte,
-		"(*bytes.Buffer).WriteRune":       mBufWriteRune,
-		"(*bytes.Buffer).String":          mBufString,
-		"(*bytes.Buffer).Len":             mBufLen,
-		"(*bytes.Buffer).Reset":           mBufReset,
-		"fmt.Sprintf":                     func(ex *Exec, a []Val) Val { s, _ := ex.sprintf(a[0].(Str), a[1]); return s },
-		"fmt.Sprint":                      mSprint,
-		"fmt.Sprintln":                    func(ex *Exec, a []Val) Val { return concatStr(ex.sprintArgs(a[0], true), cstr("\n")) },
-		"fmt.Errorf":                      mErrorf,
-		"fmt.Print":                       func(ex *Exec, a []Val) Val { return Tuple{goInt(0), nil} },
-		"fmt.Println":                     func(ex *Exec, a []Val) Val { return Tuple{goInt(0), nil} },
-		"fmt.Printf":                      func(ex *Exec, a []Val) Val { return Tuple{goInt(0), nil} },
-		"errors.Is":                       func(ex *Exec, a []Val) Val { return Bool{C: ex.errorsIs(a[0], a[1], 0)} },
-		"errors.As":                       func(ex *Exec, a []Val) Val { return Bool{C: ex.errorsAs(a[0], a[1], 0)} },
-		"errors.Unwrap":                   mErrorsUnwrap,
-		"errors.Join":                     mErrorsJoin,
-		"(*errors.joinError).Error":       mJoinErrorError,
-		"strconv.Atoi":                    mAtoi,
-		"strconv.ParseFloat":              mParseFloat,
-		"strconv.Itoa":                    func(ex *Exec, a []Val) Val { return ex.decStr(a[0].(Int)) },
-		"(*sync.Mutex).Lock":              mLock,
-		"(*sync.Mutex).Unlock":            mUnlock,
-		"(*sync.RWMutex).Lock":            mLock,
-		"(*sync.RWMutex).Unlock":          mUnlock,
-		"(*sync.RWMutex).RLock":           func(ex *Exec, a []Val) Val { return nil },
-		"(*sync.RWMutex).RUnlock":         func(ex *Exec, a []Val) Val { return nil },
-		"context.Background":              mCtxBackground,
-		"context.TODO":                    mCtxBackground,
-		"(context.backgroundCtx).Value":   func(ex *Exec, a []Val) Val { return nil },
-		"(context.emptyCtx).Value":        func(ex *Exec, a []Val) Val { return nil },
-		"(context.todoCtx).Value":         func(ex *Exec, a []Val) Val { return nil },
-		"html/template.HTMLEscaper":       mHTMLEscaper,
-		"html/template.HTMLEscapeString":  func(ex *Exec, a []Val) Val { return ex.htmlEscape(a[0].(Str)) },
-		"html.EscapeString":               func(ex *Exec, a []Val) Val { return ex.htmlEscape(a[0].(Str)) },
-		"html/template.JSEscapeString":    func(ex *Exec, a []Val) Val { return ex.jsEscape(a[0].(Str)) },
-		"text/template.JSEscapeString":    func(ex *Exec, a []Val) Val { return ex.jsEscape(a[0].(Str)) },
-		"regexp.Compile":                  mRegexpCompile,
-		"sort.Slice":                      mSortSlice,
-		"sort.SliceStable":                mSortSlice,
-		"sort.Strings":                    mSortStrings,
-		"sort.Ints":                       mSortInts,
-		"(*regexp.Regexp).MatchString":    mRegexpMatchString,
-		"unicode/utf8.RuneCountInString":  mRuneCount,
-		"unicode/utf8.ValidString":        nil,
+		"strings.Split":                  mStringsSplit,
+		"strings.Replace":                mStringsReplace,
+		"strings.ReplaceAll":             func(ex *Exec, a []Val) Val { return mStringsReplace(ex, []Val{a[0], a[1], a[2], cint(-1, 64, true)}) },
+		"strings.Contains":               mStringsContains,
+		"strings.Index":                  func(ex *Exec, a []Val) Val { return goInt(ex.indexOf(a[0].(Str), a[1].(Str), 0)) },
+		"strings.IndexByte":              func(ex *Exec, a []Val) Val { return goInt(ex.indexOf(a[0].(Str), Str{B: []Int{a[1].(Int)}}, 0)) },
+		"strings.HasPrefix":              mStringsHasPrefix,
+		"strings.HasSuffix":              mStringsHasSuffix,
+		"strings.TrimSpace":              mStringsTrimSpace,
+		"strings.TrimRight":              mStringsTrimRight,
+		"strings.Join":                   mStringsJoin,
+		"(*strings.Builder).Write":       mBufWriteBytes,
+		"(*strings.Builder).WriteString": mBufWriteString,
+		"(*strings.Builder).WriteByte":   mBufWriteByte,
+		"(*strings.Builder).WriteRune":   mBufWriteRune,
+		"(*strings.Builder).String":      mBufString,
+		"(*strings.Builder).Len":         mBufLen,
+		"(*strings.Builder).Reset":       mBufReset,
+		"(*strings.Builder).Grow":        func(ex *Exec, a []Val) Val { return nil },
+		"(*bytes.Buffer).Write":          mBufWriteBytes,
+		"(*bytes.Buffer).WriteString":    mBufWriteString,
+		"(*bytes.Buffer).WriteByte":      mBufWriteByte,
+		"(*bytes.Buffer).WriteRune":      mBufWriteRune,
+		"(*bytes.Buffer).String":         mBufString,
+		"(*bytes.Buffer).Len":            mBufLen,
+		"(*bytes.Buffer).Reset":          mBufReset,
+		"fmt.Sprintf":                    func(ex *Exec, a []Val) Val { s, _ := ex.sprintf(a[0].(Str), a[1]); return s },
+		"fmt.Sprint":                     mSprint,
+		"fmt.Sprintln":                   func(ex *Exec, a []Val) Val { return concatStr(ex.sprintArgs(a[0], true), cstr("\n")) },
+		"fmt.Errorf":                     mErrorf,
+		"fmt.Print":                      func(ex *Exec, a []Val) Val { return Tuple{goInt(0), nil} },
+		"fmt.Println":                    func(ex *Exec, a []Val) Val { return Tuple{goInt(0), nil} },
+		"fmt.Printf":                     func(ex *Exec, a []Val) Val { return Tuple{goInt(0), nil} },
+		"errors.Is":                      func(ex *Exec, a []Val) Val { return Bool{C: ex.errorsIs(a[0], a[1], 0)} },
+		"errors.As":                      func(ex *Exec, a []Val) Val { return Bool{C: ex.errorsAs(a[0], a[1], 0)} },
+		"errors.Unwrap":                  mErrorsUnwrap,
+		"errors.Join":                    mErrorsJoin,
+		"(*errors.joinError).Error":      mJoinErrorError,
+		"strconv.Atoi":                   mAtoi,
+		"strconv.ParseFloat":             mParseFloat,
+		"strconv.Itoa":                   func(ex *Exec, a []Val) Val { return ex.decStr(a[0].(Int)) },
+		"(*sync.Mutex).Lock":             mLock,
+		"(*sync.Mutex).Unlock":           mUnlock,
+		"(*sync.RWMutex).Lock":           mLock,
+		"(*sync.RWMutex).Unlock":         mUnlock,
+		"(*sync.RWMutex).RLock":          func(ex *Exec, a []Val) Val { return nil },
+		"(*sync.RWMutex).RUnlock":        func(ex *Exec, a []Val) Val { return nil },
+		"context.Background":             mCtxBackground,
+		"context.TODO":                   mCtxBackground,
+		"(context.backgroundCtx).Value":  func(ex *Exec, a []Val) Val { return nil },
+		"(context.emptyCtx).Value":       func(ex *Exec, a []Val) Val { return nil },
+		"(context.todoCtx).Value":        func(ex *Exec, a []Val) Val { return nil },
+		"html/template.HTMLEscaper":      mHTMLEscaper,
+		"html/template.HTMLEscapeString": func(ex *Exec, a []Val) Val { return ex.htmlEscape(a[0].(Str)) },
+		"html.EscapeString":              func(ex *Exec, a []Val) Val { return ex.htmlEscape(a[0].(Str)) },
+		"html/template.JSEscapeString":   func(ex *Exec, a []Val) Val { return ex.jsEscape(a[0].(Str)) },
+		"text/template.JSEscapeString":   func(ex *Exec, a []Val) Val { return ex.jsEscape(a[0].(Str)) },
+		"regexp.Compile":                 mRegexpCompile,
+		"sort.Slice":                     mSortSlice,
+		"sort.SliceStable":               mSortSlice,
+		"sort.Strings":                   mSortStrings,
+		"sort.Ints":                      mSortInts,
+		"(*regexp.Regexp).MatchString":   mRegexpMatchString,
+		"unicode/utf8.RuneCountInString": mRuneCount,
+		"unicode/utf8.DecodeRuneInString": func(ex *Exec, a []Val) Val {
+			s := a[0].(Str)
+			ex.needBytes(s, "DecodeRuneInString")
+			r, w := ex.decodeRune(s.B)
+			return Tuple{r, goInt(w)}
+		},
+		"unicode/utf8.ValidString": func(ex *Exec, a []Val) Val {
+			s := a[0].(Str)
+			ex.needBytes(s, "ValidString")
+			for pos := 0; pos < len(s.B); {
+				r, w := ex.decodeRune(s.B[pos:])
+				if w == 1 {
+					if ex.branch(ex.intBinop(token.EQL, r, cint(0xFFFD, 32, true)).(Bool)) {
+						return Bool{C: false}
+					}
+				}
+				pos += w
+			}
+			return Bool{C: true}
+		},
 	}
-	delete(models, "unicode/utf8.ValidString")
 	for k, v := range reflectModels() {
 		models[k] = v
 	}
@@ -102,9 +120,9 @@ func init() {
 			ex.regOrder = append(ex.regOrder, name)
 			return nil
 		},
-		"Tier": func(ex *Exec, a []Val) Val { return goInt(ex.w.tier) },
-		"Byte": func(ex *Exec, a []Val) Val { return Int{T: ex.freshVar("byte", 8), W: 8} },
-		"Int":  func(ex *Exec, a []Val) Val { return Int{T: ex.freshVar("int", 64), W: 64, S: true} },
+		"Tier":  func(ex *Exec, a []Val) Val { return goInt(ex.w.tier) },
+		"Byte":  func(ex *Exec, a []Val) Val { return Int{T: ex.freshVar("byte", 8), W: 8} },
+		"Int":   func(ex *Exec, a []Val) Val { return Int{T: ex.freshVar("int", 64), W: 64, S: true} },
 		"Int64": func(ex *Exec, a []Val) Val { return Int{T: ex.freshVar("int64", 64), W: 64, S: true} },
 		"Bool": func(ex *Exec, a []Val) Val {
 			t := ex.freshVar("bool", 8)
